@@ -14,6 +14,10 @@ func init() {
 }
 
 func runC09(c *Ctx) {
+	defer c09PerIterationAddresses(c, "C09-R4")
+	defer c09EveryRuleBlockParsed(c, "C09-R6")
+	defer pureClosure(c, "C09-R3", "match/ignore conditions keep no package-level state", "strictRegex, Match.IsMatch and Match.validate", "a regexp cached under its pattern text is shared by everything that compiles that text, anchored or not: whether a condition is fully anchored then depends on who compiled the pattern first", "internal/config.strictRegex", "internal/config.Match.IsMatch", "internal/config.Match.validate")
+	defer c09NoStateDefaultInIsMatch(c, "C09-R2")
 	p := c.P
 	c.Rule("C09-R1", "duration operator tables", 12)
 	c.Rule("C09-R2", "state vocabulary, per-command default, defaultRuleMatch", 16)
@@ -523,4 +527,170 @@ func c09StateDefault(c *Ctx, R string) {
 		}
 		c.Check(okEmpty, R, "defaultRuleMatch:no match block -> state-only default block", drm.Decl.Pos(), "Match{State: defaultStates}", "a rule block without match{} no longer gets the state-only default")
 	}
+}
+
+// c09NoStateDefaultInIsMatch: Match.IsMatch tests the state only when the
+// block sets one, and then against the block's own list: stateMatches receives
+// the field m.State under `len(m.State) != 0`. The command's state default is
+// given to `match` blocks of check definitions by defaultRuleMatch and to
+// nothing else: an ignore block, or the match block of a rule{disable/enable},
+// without `state` applies to every entry.
+func c09NoStateDefaultInIsMatch(c *Ctx, R string) {
+	fi := c.MustFunc(R, "internal/config.Match.IsMatch")
+	if fi == nil {
+		return
+	}
+	info := fi.Pkg.TypesInfo
+	pm := parentMap(fi.Decl.Body)
+	n := 0
+	ast.Inspect(fi.Decl.Body, func(nd ast.Node) bool {
+		call, ok := nd.(*ast.CallExpr)
+		if !ok || !isCallTo(info, call, "internal/config.stateMatches") || len(call.Args) != 2 {
+			return true
+		}
+		n++
+		own := fieldSel(info, call.Args[0], "internal/config.Match", "State")
+		guarded := false
+		// the call may be the right operand of `len(m.State) != 0 && !stateMatches(…)`
+		atoms := WithinExprAtoms(enclosingCond(pm, call), call)
+		atoms = append(atoms, lexicalGuards(pm, call, fi.Decl.Body)...)
+		for _, a := range atoms {
+			be, isBin := ast.Unparen(a.E).(*ast.BinaryExpr)
+			if !isBin || a.Tag != nil {
+				continue
+			}
+			lc, isCall := ast.Unparen(be.X).(*ast.CallExpr)
+			if !isCall || exprStr(lc.Fun) != "len" || len(lc.Args) != 1 || !fieldSel(info, lc.Args[0], "internal/config.Match", "State") {
+				continue
+			}
+			if k, isC := constInt(info, be.Y); isC && k == 0 && ((be.Op == token.NEQ && a.Truth) || (be.Op == token.GTR && a.Truth) || (be.Op == token.EQL && !a.Truth)) {
+				guarded = true
+			}
+		}
+		c.Check(own && guarded, R, "Match.IsMatch:state tested only when the block sets one, against its own list", call.Pos(), "stateMatches(m.State, …) under len(m.State) != 0",
+			"Match.IsMatch compares the entry's state with `"+roleStr(info, call.Args[0])+"` (or does so for a block without `state`): a block that does not mention the state gets a default here, so an ignore block or the match block of rule{disable=[…]} silently stops applying to unmodified rules in `pint ci`")
+		return true
+	})
+	c.Check(n == 1, R, "Match.IsMatch:one state test", fi.Decl.Pos(), "one", itoa(n)+" calls of stateMatches")
+}
+
+// enclosingCond returns the condition expression of the innermost if statement whose
+// condition contains n (or n itself).
+func enclosingCond(pm map[ast.Node]ast.Node, n ast.Node) ast.Expr {
+	child := n
+	for cur := pm[n]; cur != nil; child, cur = cur, pm[cur] {
+		if ifs, ok := cur.(*ast.IfStmt); ok && ast.Node(ifs.Cond) == child {
+			return ifs.Cond
+		}
+		if _, isStmt := cur.(ast.Stmt); isStmt {
+			break
+		}
+	}
+	if e, ok := n.(ast.Expr); ok {
+		return e
+	}
+	return nil
+}
+
+// c09PerIterationAddresses: an address taken inside a loop and kept (stored in
+// an Entry, appended) is the address of a variable of that iteration. With the
+// loop variable declared outside the loop (`var group Group; for _, group =
+// range …`) every Entry.Group of a file points at one variable, and after the
+// loop all rules carry the last group's labels: label conditions then see the
+// wrong group-level labels.
+func c09PerIterationAddresses(c *Ctx, R string) {
+	fi := c.MustFunc(R, "internal/discovery.readRules")
+	if fi == nil {
+		return
+	}
+	info := fi.Pkg.TypesInfo
+	pm := parentMap(fi.Decl.Body)
+	n := 0
+	ast.Inspect(fi.Decl.Body, func(nd ast.Node) bool {
+		u, ok := nd.(*ast.UnaryExpr)
+		if !ok || u.Op != token.AND {
+			return true
+		}
+		v, isVar := objOf(info, u.X).(*types.Var)
+		if !isVar || v.IsField() {
+			return true
+		}
+		// v is what an enclosing range loop iterates with
+		var loop *ast.RangeStmt
+		for cur := pm[ast.Node(u)]; cur != nil; cur = pm[cur] {
+			if rs, isR := cur.(*ast.RangeStmt); isR {
+				for _, l := range []ast.Expr{rs.Key, rs.Value} {
+					if l != nil && objOf(info, l) == types.Object(v) {
+						loop = rs
+					}
+				}
+			}
+		}
+		if loop == nil {
+			return true // a variable that is the same for all iterations on purpose (the file)
+		}
+		n++
+		inside := loop.Tok == token.DEFINE
+		c.Check(inside, R, "readRules:address of `"+typeRole(v)+"` kept inside a loop is per iteration", u.Pos(), "declared by the loop",
+			"the address of a variable declared outside the loop is kept inside it: every entry built by the loop points at the same variable, which holds the last element once the loop is done — all rules of a file then see the last group's labels")
+		return true
+	})
+	c.Check(n >= 1, R, "readRules:addresses kept inside loops enumerated", fi.Decl.Pos(), itoa(n), "none found")
+}
+
+// c09EveryRuleBlockParsed: GetChecksForEntry turns every rule{} block of the
+// configuration into checks for every error-free entry: the parseRule call in
+// the loop over cfg.Rules has no guard of its own and nothing before it in the
+// loop body can skip the block. Whether a block applies is decided afterwards,
+// per parsed rule, by isMatch.
+func c09EveryRuleBlockParsed(c *Ctx, R string) {
+	fi := c.MustFunc(R, "internal/config.Config.GetChecksForEntry")
+	if fi == nil {
+		return
+	}
+	info := fi.Pkg.TypesInfo
+	pm := parentMap(fi.Decl.Body)
+	var loop *ast.RangeStmt
+	ast.Inspect(fi.Decl.Body, func(n ast.Node) bool {
+		if rs, ok := n.(*ast.RangeStmt); ok && fieldSel(info, rs.X, "internal/config.Config", "Rules") {
+			loop = rs
+		}
+		return true
+	})
+	if loop == nil {
+		c.Bad(R, "GetChecksForEntry:ranges over cfg.Rules", fi.Decl.Pos(), "no loop over the configured rule{} blocks")
+		return
+	}
+	var call *ast.CallExpr
+	ast.Inspect(loop.Body, func(n ast.Node) bool {
+		if cl, ok := n.(*ast.CallExpr); ok && call == nil && isCallTo(info, cl, "internal/config.parseRule") {
+			call = cl
+		}
+		return true
+	})
+	why := ""
+	switch {
+	case call == nil:
+		why = "the loop does not call parseRule"
+	case len(lexicalGuards(pm, call, loop.Body)) > 0:
+		why = "parseRule is guarded by `" + roleStr(info, lexicalGuards(pm, call, loop.Body)[0].E) + "`"
+	default:
+		for _, st := range loop.Body.List {
+			inside := false
+			ast.Inspect(st, func(m ast.Node) bool {
+				if m == ast.Node(call) {
+					inside = true
+				}
+				return !inside
+			})
+			if inside {
+				break
+			}
+			if containsBranch(st) {
+				why = "a statement in front of parseRule can skip the block"
+			}
+		}
+	}
+	c.Check(why == "", R, "GetChecksForEntry:every rule{} block is parsed for the entry", loop.Pos(), "unconditional parseRule",
+		why+": some rule{} blocks are never turned into checks for some entries, whatever their match/ignore blocks say (a shortcut that guesses the outcome of the match from the entry's state skips blocks that do select it)")
 }
